@@ -21,6 +21,7 @@ type cronVersion struct {
 	fam  *schedFamily // nil: not scheduled (deleted, disabled, no cron)
 	desc string
 	uid  string
+	lu   int64 // spec.schedule.lastUpdated (the admission webhook's own record of "the schedule was changed")
 }
 
 type cronKeyHist struct {
@@ -169,13 +170,20 @@ func (m *cronMon) onAPI(ev *APIEvent) {
 		}
 	}
 	uid := string(jc.UID)
+	// A bumped lastUpdated is a schedule change in the API object even if expression,
+	// timezone and constraints read the same (the webhook bumps it whenever the
+	// schedule block differs in any field): the controller may re-base on it.
+	lu := int64(0)
+	if sch := jc.Spec.Schedule; sch != nil && sch.LastUpdated != nil && ev.Type != "DELETED" {
+		lu = sch.LastUpdated.Unix()
+	}
 	if n := len(h.versions); n > 0 {
 		last := h.versions[n-1]
-		if last.desc == desc && last.uid == uid {
+		if last.desc == desc && last.uid == uid && (last.lu == lu || desc == "none" || desc == "deleted") {
 			return
 		}
 	}
-	h.versions = append(h.versions, &cronVersion{idx: len(h.versions), seq: ev.Seq, at: ev.Time, fam: fam, desc: desc, uid: uid})
+	h.versions = append(h.versions, &cronVersion{idx: len(h.versions), seq: ev.Seq, at: ev.Time, fam: fam, desc: desc, uid: uid, lu: lu})
 }
 
 // versionAt returns the index of the version current at API sequence seq.
